@@ -1,14 +1,20 @@
 import Grexv.Props.C08
 import Grexv.Props.C01
+import Grexv.Props.C03
 
 /-!
-# C04 — the case-insensitive option (text and S1 level)
+# C04 — the case-insensitive option
 
-Proved: the flag is emitted exactly when requested; lower-casing replaces a test case only when
+Text and S1 level: the flag is emitted exactly when requested; lower-casing replaces a test case only when
 its number of code points is preserved; test cases that become equal collapse to one entry.
-The language-level statement (simple case folding of the regex crate) is decided by the symbolic
-oracle; it is false of the code for the letters std lower-cases but the pinned regex-syntax does
-not fold (known finding D14).
+
+End to end (`ci_exact`, `ci_default_exact`, `ci_sound`): with the option on (every subset of the class options,
+with or without capturing groups, everything else at its default) the returned text is accepted by the model of
+`Regex::new` with the `i` flag set, and the compiled pattern matches a string in full iff the string equals one of
+the stored (lower-cased) non-empty test cases position by position up to the regex crate's simple case folding
+(generated table `Gen.rxFold`) — class tokens standing for the members of their class; and every non-empty original
+test case is accepted.  `str::to_lowercase` enters as the parameter `env.lowerOf`; nothing is assumed about it:
+the code keeps the original test case whenever the lower-cased form would not match it under `(?i)`.
 -/
 set_option linter.unusedSimpArgs false
 set_option linter.unusedVariables false
@@ -37,5 +43,126 @@ theorem collapse (env : Env) (ws : List Str) : (sortCases (lowerCases env ws)).N
 theorem keeps_when_length_changes (env : Env) (w : Str) (h : (env.lowerOf w).length ≠ w.length) :
     lowerCases env [w] = [w] := by
   simp [lowerCases, lowerOne, h]
+
+/-! ## end to end -/
+
+/-- `s` equals `t` position by position up to simple case folding (the regex crate's `(?i)` on a literal) -/
+def FoldEq (t s : Str) : Prop := atomsDen true (t.map Atom.chr) s
+
+theorem foldEq_refl (t : Str) : FoldEq t t := by
+  unfold FoldEq
+  induction t with
+  | nil => rfl
+  | cons c r ih => exact ⟨c, r, rfl, by simp [atomDen, Spec.chrMatches], ih⟩
+
+theorem foldEq_length (t s : Str) (h : FoldEq t s) : s.length = t.length := by
+  unfold FoldEq at h
+  induction t generalizing s with
+  | nil => simp [atomsDen] at h; simp [h]
+  | cons c r ih =>
+    obtain ⟨x, r', rfl, _, hr⟩ := h
+    simp [ih r' hr]
+
+theorem foldEq_of_zip : ∀ (l w : Str), l.length = w.length →
+    ((List.zip l w).all fun p => Spec.chrMatches true p.1 p.2) = true → FoldEq l w
+  | [], [], _, _ => rfl
+  | [], _ :: _, h, _ => by simp at h
+  | _ :: _, [], h, _ => by simp at h
+  | c :: l, x :: w, h, hz => by
+    simp only [List.zip_cons_cons, List.all_cons, Bool.and_eq_true] at hz
+    exact ⟨x, w, rfl, hz.1, foldEq_of_zip l w (by simpa using h) hz.2⟩
+
+/-- **C04 (what is stored still matches)** the stored form of a test case matches the original under `(?i)`,
+whatever `str::to_lowercase` returns -/
+theorem stored_matches_original (env : Env) (w : Str) : FoldEq (lowerOne env w) w := by
+  unfold lowerOne
+  simp only []
+  split
+  · rename_i hc
+    simp only [Bool.and_eq_true, decide_eq_true_eq] at hc
+    obtain ⟨hlen, hm⟩ := hc
+    unfold ciLiteralMatch at hm
+    simp only [Bool.or_eq_true, beq_iff_eq, Bool.and_eq_true] at hm
+    rcases hm with he | ⟨_, hz⟩
+    · rw [he]; exact foldEq_refl w
+    · exact foldEq_of_zip _ _ hlen hz
+  · exact foldEq_refl w
+
+theorem stored_ne_nil (env : Env) (w : Str) (h : w ≠ []) : lowerOne env w ≠ [] := by
+  intro hc
+  have := foldEq_length _ _ (stored_matches_original env w)
+  rw [hc] at this
+  exact h (List.eq_nil_of_length_eq_zero this)
+
+/-- **C04 for the model, all inputs, every subset of the class options** with the case-insensitive option on: the
+returned text is accepted with the `i` flag set and matches a string of scalar values in full iff the string is
+obtained from a stored non-empty test case by replacing every code point by a member of its simple-case-folding
+orbit (unconverted code points) or of its shorthand class (converted ones) -/
+theorem ci_exact (cfg : Config) (hp : PlainPrintCI cfg) (hci : cfg.ci = true) (env : Env) (ws : List Str) (st : Stages)
+    (h : regExpFrom cfg env ws = .ok st) (hseg : ∀ w ∈ lowerCases env ws, SegOK env w)
+    (hne : ∃ t ∈ ws, t ≠ []) (s : Str) (hs : ∀ c ∈ s, Scalar c) :
+    ∃ P, Spec.parse (fmtRegExp cfg st.finalAst) = some (⟨true, false⟩, P) ∧
+      (Spec.fullMatch true P s = true ↔
+        ∃ t ∈ lowerCases env ws, t ≠ [] ∧ atomsDen true (t.map (Props.C03.docAtom cfg)) s) := by
+  have hst : storedCases cfg env ws = lowerCases env ws := by simp [storedCases, hci]
+  obtain ⟨t0, ht0, ht0ne⟩ := hne
+  have hne' : ∃ t ∈ lowerCases env ws, t ≠ [] :=
+    ⟨lowerOne env t0, List.mem_map.mpr ⟨t0, ht0, rfl⟩, stored_ne_nil env t0 ht0ne⟩
+  have := classes_exact_ci cfg hp env ws st h (by rw [hst]; exact hseg) (by rw [hst]; exact hne') s hs
+  rw [hst, hci] at this
+  obtain ⟨P, hP, hm⟩ := this
+  refine ⟨P, hP, ?_⟩
+  rw [hm]
+  have : ∀ t : Str, t.map (convAtom cfg) = t.map (Props.C03.docAtom cfg) :=
+    fun t => List.map_congr_left (fun c _ => Props.C03.convAtom_documented cfg c)
+  simp only [this]
+
+/-- the settings of `ci_default_exact`: only the case-insensitive option (and possibly capturing groups) -/
+def cfgCI (cap : Bool) : Config := { cap := cap, ci := true }
+
+theorem plainPrintCI_cfgCI (cap : Bool) : PlainPrintCI (cfgCI cap) := ⟨rfl, rfl, rfl, rfl, rfl, rfl, rfl⟩
+
+/-- **C04 for the model, all inputs** with only the case-insensitive option: the compiled pattern matches exactly
+the strings that equal a stored non-empty test case up to simple case folding, position by position -/
+theorem ci_default_exact (cap : Bool) (env : Env) (ws : List Str) (st : Stages)
+    (h : regExpFrom (cfgCI cap) env ws = .ok st) (hseg : ∀ w ∈ lowerCases env ws, SegOK env w)
+    (hne : ∃ t ∈ ws, t ≠ []) (s : Str) (hs : ∀ c ∈ s, Scalar c) :
+    ∃ P, Spec.parse (fmtRegExp (cfgCI cap) st.finalAst) = some (⟨true, false⟩, P) ∧
+      (Spec.fullMatch true P s = true ↔ ∃ t ∈ lowerCases env ws, t ≠ [] ∧ FoldEq t s) := by
+  obtain ⟨P, hP, hm⟩ := ci_exact (cfgCI cap) (plainPrintCI_cfgCI cap) rfl env ws st h hseg hne s hs
+  refine ⟨P, hP, ?_⟩
+  rw [hm]
+  have : ∀ t : Str, t.map (Props.C03.docAtom (cfgCI cap)) = t.map Atom.chr :=
+    fun t => List.map_congr_left (fun c _ => by simp [Props.C03.docAtom, cfgCI])
+  simp only [this, FoldEq]
+
+/-- **C04 (every test case still matches)** with only the case-insensitive option every non-empty original test case
+is matched by the returned pattern — in whatever letter case it was given -/
+theorem ci_sound (cap : Bool) (env : Env) (ws : List Str) (st : Stages)
+    (h : regExpFrom (cfgCI cap) env ws = .ok st) (hseg : ∀ w ∈ lowerCases env ws, SegOK env w)
+    (w : Str) (hw : w ∈ ws) (hne : w ≠ []) (hsc : ∀ c ∈ w, Scalar c) :
+    ∃ P, Spec.parse (fmtRegExp (cfgCI cap) st.finalAst) = some (⟨true, false⟩, P) ∧ Spec.fullMatch true P w = true := by
+  obtain ⟨P, hP, hm⟩ := ci_default_exact cap env ws st h hseg ⟨w, hw, hne⟩ w hsc
+  exact ⟨P, hP, hm.mpr ⟨lowerOne env w, List.mem_map.mpr ⟨w, hw, rfl⟩, stored_ne_nil env w hne,
+    stored_matches_original env w⟩⟩
+
+/-- the case-insensitive pattern accepts nothing of another length than a stored test case -/
+theorem ci_length (cap : Bool) (env : Env) (ws : List Str) (st : Stages)
+    (h : regExpFrom (cfgCI cap) env ws = .ok st) (hseg : ∀ w ∈ lowerCases env ws, SegOK env w)
+    (hne : ∃ t ∈ ws, t ≠ []) (s : Str) (hs : ∀ c ∈ s, Scalar c) (P : Spec.Pat)
+    (hP : Spec.parse (fmtRegExp (cfgCI cap) st.finalAst) = some (⟨true, false⟩, P))
+    (hm : Spec.fullMatch true P s = true) : ∃ t ∈ lowerCases env ws, s.length = t.length := by
+  obtain ⟨P', hP', hm'⟩ := ci_default_exact cap env ws st h hseg hne s hs
+  rw [hP] at hP'
+  simp only [Option.some.injEq, Prod.mk.injEq, true_and] at hP'
+  subst hP'
+  obtain ⟨t, ht, _, hf⟩ := hm'.mp hm
+  exact ⟨t, ht, foldEq_length t s hf⟩
+
+/-! non-vacuity: `K` (U+004B) is matched by a stored `k` under folding, and so is the Kelvin sign U+212A -/
+example : FoldEq [107] [75] ∧ FoldEq [107] [8490] := by
+  have h1 : Spec.chrMatches true 107 75 = true := by decide +kernel
+  have h2 : Spec.chrMatches true 107 8490 = true := by decide +kernel
+  exact ⟨⟨75, [], rfl, h1, rfl⟩, ⟨8490, [], rfl, h2, rfl⟩⟩
 
 end Grexv.Props.C04
